@@ -460,6 +460,11 @@ class Program:
             m = re.search(r"<impl at ([^:]+):(\d+):(\d+): (\d+):(\d+)>::(\w+)$", name)
             if not m:
                 continue
+            mw = re.search(r"\(_1: &[^,]*<impl Serialize for (\w+)>::serialize::__SerializeWith", self.funcs[name].header) if self.funcs[name] is not None else None
+            if mw and name.count("<impl at") >= 2:
+                # `impl Serialize for __SerializeWith` generated inside the derived serialize of struct X
+                self.impl_index[(f"__SerializeWith@{mw.group(1)}", "Serialize", m.group(6))] = name
+                continue
             path, l1, c1, l2, c2, meth = m.group(1), int(m.group(2)), int(m.group(3)), int(m.group(4)), int(m.group(5)), m.group(6)
             fp = os.path.join(self.src_root, path)
             if fp not in cache:
@@ -854,6 +859,10 @@ class Program:
         p = re.sub(r"<'_>", "", p)
         segs = p.split("::")
         last = segs[-1]
+        if last in ("__SerializeWith", "__DeserializeWith"):
+            # serde's per-field wrapper for `serialize_with`: one distinct type per enclosing struct
+            m = re.search(r"impl (?:Serialize|Deserialize(?:<[^>]*>)?) for (\w+)", path)
+            return Adt(f"{last}@{m.group(1)}" if m else last, None, args)
         if len(segs) >= 2 and segs[-2] == "__Field":
             # serde-generated field identifier enum: __field0.. in declaration order, __ignore last
             if last.startswith("__field"):
@@ -1155,4 +1164,33 @@ def _shallow_copy(v):
 
 
 def _unescape(s):
-    return bytes(s, "utf-8").decode("unicode_escape") if "\\" in s else s
+    if "\\" not in s:
+        return s
+    # Rust escapes: \u{1f69a}, \n, \t, \", \\, \x41, \0 ...; non-ASCII text stays as it is
+    out, i, n = [], 0, len(s)
+    simple = {"n": "\n", "t": "\t", "r": "\r", "0": "\0", "\\": "\\", '"': '"', "'": "'"}
+    while i < n:
+        c = s[i]
+        if c != "\\" or i + 1 >= n:
+            out.append(c)
+            i += 1
+            continue
+        d = s[i + 1]
+        if d == "u" and i + 2 < n and s[i + 2] == "{":
+            j = s.index("}", i + 3)
+            out.append(chr(int(s[i + 3:j].replace("_", ""), 16)))
+            i = j + 1
+        elif d == "x" and i + 3 < n:
+            out.append(chr(int(s[i + 2:i + 4], 16)))
+            i += 4
+        elif d in simple:
+            out.append(simple[d])
+            i += 2
+        elif d == "\n":
+            i += 2
+            while i < n and s[i] in " \t\n":
+                i += 1
+        else:
+            out.append(c)
+            i += 1
+    return "".join(out)
